@@ -9,21 +9,28 @@ PROP = "C03"
 def nested_and_stop(tier):
     """asynchronous histories in which (a) the sink itself logs a message on the logger thread while a backlog is queued, (b) a second
     thread logs while the stop delivers queued messages: first-in-first-out in real time, no sink re-entered, nothing on two threads"""
-    hs = ["AMLLL", "AMLLLR", "AMLL 2 2", "AMLLR 3 1", "MLLR 3 1", "MLLR 3 2", "AMLaLLR 6 1", "AMLaLLR 5 2"]
+    hs = ["AMLLL", "AMLLR 3 1", "MLLR 3 1", "MLLR 3 2", "AMLaLLR 6 1"]
     if tier != "quick":
-        hs += ["AMLLLX", "AMLLL 3 2", "MLLLR 4 2", "AMLLaLR 6 2", "AMLRMLL 5 1"]
+        hs += ["AMLLLR", "AMLL 2 2", "AMLaLLR 5 2", "AMLLLX", "AMLLL 3 2", "MLLLR 4 2", "AMLLaLR 6 2", "AMLRMLL 5 1"]
     p = os.path.join(vlib.BUILD, "c03-hist.txt")
     os.makedirs(vlib.BUILD, exist_ok=True)
     open(p, "w").write("\n".join(hs) + "\n")
     b = 2 if tier == "quick" else 3
-    return [{"scenario": "c04xh", "hists-file": p, "bound": b, "glib": 1, "nested": 1, "_shards": len(hs), "_nhist": len(hs)},
-            {"scenario": "c04xl", "hists-file": p, "bound": b - 1, "glib": 0, "nested": 1, "_shards": len(hs), "_nhist": len(hs)}]
+    out = []
+    for h in hs:          # one exploration per history, each sharded over all cores
+        parts = h.split()
+        sc = {"scenario": "c04xh", "hist": parts[0], "bound": b, "glib": 1, "nested": 1}
+        if len(parts) == 3:
+            sc["racer-at"], sc["racer"] = int(parts[1]), int(parts[2])
+        out.append(sc)
+    out.append({"scenario": "c04xl", "hists-file": p, "bound": b - 1, "glib": 0, "nested": 1, "_shards": len(hs), "_nhist": len(hs)})
+    return out
 
 
 def run(tier):
     if tier == "quick":
-        scs = [dict(scenario="c03h", p=2, m=2, bound=2, glib=1), dict(scenario="c03h", p=2, m=1, bound=2, glib=0), dict(scenario="c03h", p=3, m=1, bound=1, glib=1),
-               dict(scenario="c03g", p=2, m=2, bound=1, glib=1, _shards=16), dict(scenario="c03g", p=1, m=5, bound=2, glib=0), dict(scenario="c03h", p=1, m=4, bound=2, glib=1)]
+        scs = [dict(scenario="c03h", p=2, m=2, bound=2, glib=1), dict(scenario="c03h", p=2, m=1, bound=2, glib=0), dict(scenario="c03h", p=3, m=1, bound=1, glib=1, _shards=16),
+               dict(scenario="c03g", p=2, m=2, bound=1, glib=1, _shards=16), dict(scenario="c03g", p=1, m=4, bound=2, glib=0), dict(scenario="c03h", p=1, m=4, bound=2, glib=1)]
         dl = 150
         scs += nested_and_stop(tier)
     else:
@@ -33,7 +40,7 @@ def run(tier):
         scs += nested_and_stop(tier)
     return vsrun.vs_check(
         PROP, tier, scs, deadline_s=dl, min_outcomes=2,
-        race_scenarios=[dict(scenario="c03h", p=2, m=2, bound=1, glib=1), dict(scenario="c03g", p=2, m=2, bound=1, glib=1)] if tier == "quick" else
+        race_scenarios=[dict(scenario="c03h", p=2, m=1, bound=1, glib=1), dict(scenario="c03g", p=2, m=1, bound=1, glib=1), dict(scenario="c03h", p=2, m=2, bound=0, glib=0)] if tier == "quick" else
                       [dict(scenario="c03h", p=2, m=2, bound=2, glib=1), dict(scenario="c03g", p=2, m=2, bound=2, glib=1), dict(scenario="c03h", p=2, m=2, bound=1, glib=0), dict(scenario="c03g", p=3, m=1, bound=1, glib=0)],
         rule="every interleaving, up to the deviation bound, of P producers x m messages and the worker thread of an OwnThreadHandler<Pipeline> moved to its own thread; messages are "
              "built with heap-allocated file/function/category strings (or null pointers), pre-set formatted text and attributes, and the caller poisons and frees those buffers right "
